@@ -47,6 +47,10 @@ CHECKS = {
    technique="argmax(timestamp) oracle over white-box placed copies on owner / real previous owner / backups (exhaustive layouts), read-repair after-state check, merge oracle over all delivery orders and re-deliveries through the real MOVEFRAGMENT command",
    text="Get: in a really fragmented partition (join with the balancer held back) every assignment of {missing, ts1, ts2, ts3} to the holders {owner, previous owner, backup owners} is placed white-box (ReplicaCount 1-3, read-repair off/on) and a Get through a rotating path must return a copy with the maximal timestamp; with read-repair the owner's own copy and every stale backup copy must equal the winner after that single Get. Merge: seeded sets of 2-4 tables over 5 keys with timestamps 1..6 (ties included) and optional pre-existing local entries are delivered through INTERNAL.NODE.MOVEFRAGMENT to primary and backup fragments in every permutation and with every single re-delivery; after each delivery the receiver must hold, per key, the newest entry delivered so far.",
    note="Ties accept any copy with the maximal timestamp; missing backup copies need not be created by read-repair; quick runs a third of the layouts and a quarter of the delivery orders (selected by the seed), thorough all of them."),
+ "C12": dict(category="exploration", design="DESIGN.md §3 C12",
+   technique="set/multiset oracle over complete iterations (embedded and cluster client iterators, raw DM.SCAN cursor loops on primaries and on backups with RC) against a model of shaped stores; termination bounds; hook-counted server-side scan calls",
+   text="Seeded programs shape 0-2000-key stores on real clusters (1-3 members, ReplicaCount 1-2, partition counts 1-31, table sizes 300 B-1 MiB): puts in five entry-size classes, overwrites and deletes of blocks and scattered keys, compaction to completion or mid-way (gaps in table numbering, recycled tables), re-puts, short expiries. Each store is iterated to completion by EmbeddedDMap.Scan, ClusterDMap.Scan, raw DM.SCAN cursor loops per partition and owner, and the same with RC on backup owners, for COUNT in {1,2,3,10,100,10^6, default, <=0} and MATCH classes none/all/some/no match/one block. Yielded multisets are compared with the model: every stable key at least once (exactly once through the client iterators), no deleted or never-stored key, MATCH exactly the matching present keys, termination within call/round-trip bounds. Join batches repeat this while a partition lists two owners and after balancing; the thorough tier also scans under concurrent churn on a disjoint key set.",
+   note="Expired-but-not-evicted keys and churn keys are not judged (the statement is silent); rawrc completeness is judged on stable clusters only; membership changes during an iteration are out of scope."),
 }
 
 NOT_BUILT_REASON = "check not built yet (work in progress in this session); not claimed until its monitor is silent on the unchanged tree"
